@@ -22,9 +22,15 @@ UF1_NAMES = [
     "exp", "log", "sin", "cos", "tan", "tanh", "sinh", "cosh", "arcsin", "arccos", "arcsinh",
     "arctan", "erf", "sqrt",
 ]
-UF1 = {n: z3.Function(n, RS, RS) for n in UF1_NAMES}
-POW = z3.Function("pow", RS, RS, RS)
-ARCTAN2 = z3.Function("arctan2", RS, RS, RS)
+UF1 = {n: z3.Function("f_" + n, RS, RS) for n in UF1_NAMES}   # "f_" prefix: the bare names are builtins of the SMT-LIB parsers
+POW = z3.Function("f_pow", RS, RS, RS)
+ARCTAN2 = z3.Function("f_arctan2", RS, RS, RS)
+
+
+def ufname(u):
+    """Name of a transcendental application without the "f_" prefix."""
+    n = u.decl().name()
+    return n[2:] if n.startswith("f_") else n
 PI = z3.Real("pi")
 INF = float("inf")
 NAN = float("nan")
@@ -454,7 +460,7 @@ def uf_apps(terms):
     out = {}
     for u in seen.values():
         if z3.is_app(u) and u.decl().kind() == z3.Z3_OP_UNINTERPRETED and u.num_args() > 0:
-            out.setdefault(u.decl().name(), []).append(u)
+            out.setdefault(ufname(u), []).append(u)
     return out
 
 
@@ -504,6 +510,13 @@ def axioms_for(terms, extra_pairs=True):
         a = u.arg(0)
         ax += [z3.Implies(a == 0, u == 1), z3.Implies(a == PI, u == -1),
                z3.Implies(z3.And(a > 0, a < PI), z3.And(u > -1, u < 1))]
+    # reflection: a + b = pi  =>  cos a = -cos b, sin a = sin b
+    for name, sgn in (("cos", -1), ("sin", 1)):
+        lst = apps.get(name, [])[:10]
+        for i in range(len(lst)):
+            for j in range(i + 1, len(lst)):
+                ax.append(z3.Implies(lst[i].arg(0) + lst[j].arg(0) == PI, lst[i] == sgn * lst[j]))
+                ax.append(z3.Implies(lst[i].arg(0) == lst[j].arg(0), lst[i] == lst[j]))
     # sin^2 + cos^2 = 1 on shared arguments
     cos_by_arg = {u.arg(0).get_id(): u for u in apps.get("cos", [])}
     for s in apps.get("sin", []):
@@ -548,7 +561,7 @@ def axioms_for(terms, extra_pairs=True):
             for j in range(i + 1, len(lst)):
                 a, b = lst[i], lst[j]
                 dom = z3.And(a.arg(0) >= 0, a.arg(0) <= PI, b.arg(0) >= 0, b.arg(0) <= PI)
-                ax.append(z3.Implies(dom, (a.arg(0) < b.arg(0)) == (a > b)))
+                ax.append(z3.Implies(dom, z3.And((a.arg(0) < b.arg(0)) == (a > b), (a.arg(0) == b.arg(0)) == (a == b))))
         lst = apps.get("pow", [])[:10]
         for i in range(len(lst)):
             for j in range(i + 1, len(lst)):
